@@ -4,7 +4,7 @@
    signals with a value table, the kind only; the full statement is
    Acme.C10.Proofs.import_signal_faithful_full_statement. *)
 From Coq Require Import String ZArith List.
-From Acme.C10 Require Import DbcDoc BusModel Import Bits BitsProofs Proofs ProofsEnum ProofsLayout ProofsFaithful.
+From Acme.C10 Require Import DbcDoc BusModel Import Bits BitsProofs Proofs ProofsEnum ProofsLayout ProofsFaithful ProofsMux.
 Import ListNotations.
 Open Scope Z_scope.
 
@@ -91,3 +91,14 @@ Theorem import_layout_valid : forall d b, import d = Ok b ->
   Forall (fun m => tops_valid (b_enums b) (m_size m * 8) (m_signals m)) (b_messages b).
 Proof. exact ProofsLayout.import_layout_valid. Qed.
 Print Assumptions import_layout_valid.
+
+(* messages with exactly one multiplexor switch (simple multiplexing, SG_MUL_VAL_ entries allowed):
+   the switch is a top-level multiplexer at its position with 2^size groups; every other signal of
+   the file is present with the file's data, top-level at its position or child of the multiplexer
+   at its position relative to the end of the switch, member of the groups the file names *)
+Theorem import_simple_mux_faithful : forall d b, import d = Ok b ->
+  exists se : list (key * Z),
+    (forall k, (exists e, lookup key_eqb k se = Some e) <-> has_valenc d k) /\
+    Forall2 (fun dm m => simple_mux_faithful (doc_env d se) dm (m_signals m)) (d_messages d) (b_messages b).
+Proof. exact ProofsMux.import_simple_mux_faithful. Qed.
+Print Assumptions import_simple_mux_faithful.
